@@ -208,6 +208,16 @@ HiddenRight ==
      {<<AnyE(<<A, SeqE("of", p \o <<A, Ref(1)>>)>>)>> : p \in pre} \cup
      {<<AnyE(<<SeqE("of", p \o <<A, Ref(1), Bt>>), Eps>>)>> : p \in pre}
 
+\* left-recursion-free recursion behind a nullable prefix AND a consuming element (C03): the counters of the enclosing
+\* memoised parsers must be gone once input was consumed, whichever element of the sequence consumed it
+LRNullPrefix ==
+  LET pre == {<<Opt(Bt)>>, <<Eps>>, <<Opt(Bt), Opt(X)>>, <<AnyE(<<Bt, Eps>>)>>, <<SeqE("many", <<Bt>>)>>, <<ChoiceE(<<Bt, Eps>>)>>}
+  IN {<<AnyE(<<SeqE("of", p \o <<A, Ref(1)>>), A>>)>> : p \in pre} \cup
+     {<<SeqE("of", p \o <<A, Opt(Ref(1))>>)>> : p \in pre} \cup
+     {<<AnyE(<<SeqE("of", p \o <<A, Ref(1), Bt>>), Eps>>)>> : p \in pre} \cup
+     {<<SeqE("of", p \o <<A, Ref(2)>>), Opt(Ref(1))>> : p \in pre} \cup
+     {<<SeqE("many", <<SeqE("of", p \o <<A, Opt(Ref(1))>>)>>)>> : p \in {<<Opt(Bt)>>, <<Eps>>}}
+
 \* Optional directly over (curtailed) left-recursive calls, two nonterminals that meet at the same position from different contexts
 OptLR ==
   LET n1 == {AnyE(<<A, Opt(Ref(2))>>), Opt(SeqE("of", <<Ref(1), Ref(2), A>>)), Opt(SeqE("of", <<Ref(1), Ref(2)>>)),
